@@ -83,9 +83,9 @@ macro_rules! family {
             fn $int_full() {
                 let n: i128 = kani::any();
                 kani::assume(n >= LO && n <= HI);
+                $int_case(n);
                 kani::cover!(n > i64::MAX as i128, "beyond i64::MAX");
                 kani::cover!(n < i64::MIN as i128, "below i64::MIN");
-                $int_case(n);
             }
 
             fn $bytes_case<const K: usize>() {
